@@ -154,7 +154,7 @@ def run_shard(shard, tier, seed):
         if tier == "quick":
             exprs = X.enumerate_exprs(2, sc)
         else:
-            exprs = X.enumerate_exprs(3, sc, cap_per_type=6000)
+            exprs = X.enumerate_exprs(3, sc, cap_per_type=2500)
         mine = exprs[shard::NSHARDS]
         shown = {}
         for e in mine:
@@ -186,7 +186,7 @@ def meta(tier):
     return {
         "technique": MANIFEST_INFO["technique"],
         "rule": "states = expression trees (plus MatchesSetwise (matchers, values) instances); evaluations = match() calls compared with the reference; non-trivial = trees of depth >= 1; distinct = distinct expression texts",
-        "bounds": {"depth": 2 if tier == "quick" else 3, "cap_per_type_per_level": None if tier == "quick" else 6000, "setwise_matchers": 3, "setwise_values": 3},
+        "bounds": {"depth": 2 if tier == "quick" else 3, "cap_per_type_per_level": None if tier == "quick" else 2500, "setwise_matchers": 3, "setwise_values": 3},
         "assumptions": MANIFEST_INFO["level_note"].split("; "),
     }
 
@@ -201,7 +201,7 @@ def replay(data):
                 p.extend(check_setwise(res, "quick", s, NSHARDS))
             return (not p), "\n".join(m for _, m in p[:10])
         doms = X.domains(sc)
-        for e in X.enumerate_exprs(3, sc, cap_per_type=6000):
+        for e in X.enumerate_exprs(3, sc, cap_per_type=2500):
             if e.name == data["expr"]:
                 res = ShardResult()
                 p = check_expr(e, doms, res)
